@@ -254,6 +254,7 @@ type contract struct {
 	loopAssign map[int][]string
 	assigns    []string // expressions naming objects the function may write; nil = unknown (havoc all); ["nothing"]
 	hasAssigns bool
+	absDivMod  bool // division/modulo by non-constants as uninterpreted functions with instance axioms
 	reads      []string // pure functions: pointer parameters whose pointee object is all the function reads (assumed)
 	assumedFrame bool
 	inline     bool
@@ -356,6 +357,8 @@ func parseContractFile(path, src string) (*contractFile, error) {
 			for _, a := range splitTopLevel(rest("reads"), ',') {
 				cur.reads = append(cur.reads, strings.TrimSpace(a))
 			}
+		case "divmod":
+			cur.absDivMod = len(f) > 1 && f[1] == "abstract"
 		case "inline":
 			cur.inline = true
 		case "noinline":
@@ -395,7 +398,11 @@ func parseContractFile(path, src string) (*contractFile, error) {
 			}
 			lastClause.expr += " " + body
 		default:
-			return nil, fmt.Errorf("%s:%d: unknown contract keyword %q", path, ln+1, f[0])
+			// any other line continues the previous clause
+			if lastClause == nil {
+				return nil, fmt.Errorf("%s:%d: unknown contract keyword %q", path, ln+1, f[0])
+			}
+			lastClause.expr += " " + body
 		}
 	}
 	return cf, nil
